@@ -161,6 +161,8 @@ TABLE: List[Entry] = [
     ("R-SHAVE", None, None, {"C02", "C10"}),  # C02: the same multiset of solutions with shaving as with plain bound consistency
     # a raise behind a pointer is mode-dependent behaviour (C15); in the push primitive it is the capacity check that cannot be reported
     # (C19), and on the decision path it leaves the state unchanged so that the search loop never ends (C04)
+    ("R-SWALLOWED-RAISE", "shav", "division", {"C02", "C10", "C15"}),  # a discarded ZeroDivisionError in shaving: an arbitrary status, a consistent node taken for a failure
+    ("R-SWALLOWED-RAISE", None, "division", {"C01", "C02", "C15"}),
     ("R-SWALLOWED-RAISE", "cp_", "raise:DOM_HEURISTIC", {"C04", "C15", "C19"}),
     ("R-SWALLOWED-RAISE", "cp_", None, {"C15", "C19"}),
     ("R-SWALLOWED-RAISE", None, None, {"C15"}),
